@@ -26,32 +26,46 @@ GInit == /\ disk \in [File -> UNION {DiskChoices(f) : f \in File}]
          /\ open = [f \in File |-> None] /\ root = "" /\ published = [f \in File |-> NoPub] /\ pending = <<>>
          /\ hist = <<>>
 
+\* the editor has closed f (didClose was the last thing it said about f): derived from the history, no extra state.  The server
+\* keeps the buffer of a closed document (its didClose handler does nothing), so the model's state does not change; the editor,
+\* for its part, sends nothing but didOpen for a closed document
+LastEv(f) == LET idx == {i \in 1..Len(hist) : hist[i].file = f} IN
+             IF idx = {} THEN "" ELSE hist[CHOOSE i \in idx : \A j \in idx : j <= i].ev
+Closed(f) == LastEv(f) = "Close"
+GClose == \E f \in File :
+             /\ open[f] # None /\ ~Closed(f)
+             /\ UNCHANGED svars /\ hist' = Append(hist, [ev |-> "Close", file |-> f, t |-> open[f]])
+\* ... and opens it again later (other events may lie in between), with the text it had or a new one
+GOpenClosed == \E f \in File : \E t \in {open[f]} \cup Variants(f, Len(hist) + 1) :
+             /\ open[f] # None /\ Closed(f)
+             /\ Open(f, t) /\ hist' = Append(hist, [ev |-> "Open", file |-> f, t |-> t])
 GOpen   == \E f \in File : \E t \in Variants(f, Len(hist) + 1) :
              /\ open[f] = None
              /\ Open(f, t) /\ hist' = Append(hist, [ev |-> "Open", file |-> f, t |-> t])
 GChange == \E f \in File : \E t \in Variants(f, Len(hist) + 1) :
+             /\ ~Closed(f)
              /\ Change(f, t) /\ hist' = Append(hist, [ev |-> "Change", file |-> f, t |-> t])
 \* the same text with the other layout: byte offsets and messages unchanged, line structure changed
 GRelayout == \E f \in File :
-             /\ open[f] # None
+             /\ open[f] # None /\ ~Closed(f)
              /\ \E l \in {0, 1, 2} \ {open[f].lay} :          \* 2: the same statements one line further down (every offset moves)
                 LET t == [open[f] EXCEPT !.lay = l] IN
                 Change(f, t) /\ hist' = Append(hist, [ev |-> "Change", file |-> f, t |-> t])
 \* the editor closes a document and opens it again with the text it had (the server keeps the buffer of a closed document):
 \* nothing changes but the root
 GReopen == \E f \in File :
-             /\ open[f] # None
+             /\ open[f] # None /\ ~Closed(f)
              /\ Open(f, open[f]) /\ hist' = Append(hist, [ev |-> "Reopen", file |-> f, t |-> open[f]])
 \* the editor saves a document: nothing changes for the server (the buffer stays the source of truth, the disk of the model is
 \* left alone: the editor's write may not have happened yet)
 \* ... or with a text the editor has for it now (the file changed while it was closed)
 GReopenNew == \E f \in File : \E t \in Variants(f, Len(hist) + 1) :
-             /\ open[f] # None
+             /\ open[f] # None /\ ~Closed(f)
              /\ Open(f, t) /\ hist' = Append(hist, [ev |-> "Reopen", file |-> f, t |-> t])
 GSave == \E f \in File :
-             /\ open[f] # None
+             /\ open[f] # None /\ ~Closed(f)
              /\ UNCHANGED svars /\ hist' = Append(hist, [ev |-> "Save", file |-> f, t |-> open[f]])
-GNext == Len(hist) < MaxEvents /\ (GOpen \/ GChange \/ GRelayout \/ GReopen \/ GReopenNew \/ GSave)
+GNext == Len(hist) < MaxEvents /\ (GOpen \/ GChange \/ GRelayout \/ GReopen \/ GReopenNew \/ GSave \/ GClose \/ GOpenClosed)
 GSpec == GInit /\ [][GNext]_gvars
 
 EmitSession == Len(hist) > 0 =>
